@@ -114,7 +114,7 @@ BUILT = {
          "are replayed with a recording Scorer, real ChunkedScoresHolder save/load/concat and select_next_plate (no policy / stub "
          "policy); random rounds incl. more chunks than plates and the select_next_plate CLI are validated by TraceScoreSelect.",
          "the conditioning filter may keep any representative; argmin ties may resolve to any minimal plate; calculate_scores CLI "
-         "is exercised under C18.",
+         "is exercised under C18. The verdict is taken from the clauses of the statement evaluated on what the code actually returned (Strict=FALSE); equality with the transcribed algorithm is a second pass reported as NOTE model-drift, never as a violation.",
          "TLA+ transcription + TLC exhaustive; spec->code replay; code->spec trace validation",
          "5/C06"),
  "C14": ("Views.tla: a pool of view objects over parent screens; every operation (subset of a subset, combine, concat, invert, "
@@ -175,7 +175,7 @@ BUILT = {
          "4-plate scope is rebuilt as a real Screen + batch and filter_eligible_plates / select_next_plate must agree with "
          "Allowed (with an attractive lower score on forbidden plates); random larger real walks are validated by "
          "TraceKPerSample.",
-         "the recording subclass of the policy only logs; scores are small integers.",
+         "the recording subclass of the policy only logs; scores are small integers. The verdict is taken from the clauses of the statement evaluated on what the code actually returned (Strict=FALSE); equality with the transcribed algorithm is a second pass reported as NOTE model-drift, never as a violation.",
          "TLA+ transcription + TLC exhaustive; spec->code replay of every reachable state; code->spec trace validation",
          "5/C16"),
  "C17": ("Sampling.tla is the small-step machine of sampling.sample (reset, set_rng, burn-in loop, thinning loop, record; "
@@ -183,7 +183,7 @@ BUILT = {
          "through the real function with a counting model and the full event log (every reset/set_rng/step/get_state) is "
          "replayed through the machine's actions by TraceSampling, as are random larger configurations; generator identity "
          "per (seed, n_chains, chain_index) is decided on stream tokens incl. repeated calls in one process.",
-         "stream non-overlap witnessed on a finite prefix; numpy SeedSequence.spawn trusted beyond it.",
+         "stream non-overlap witnessed on a finite prefix; numpy SeedSequence.spawn trusted beyond it. The verdict is taken from the clauses of the statement evaluated on what the code actually returned (Strict=FALSE); equality with the transcribed algorithm is a second pass reported as NOTE model-drift, never as a violation.",
          "TLA+ state machine + TLC exhaustive; trace validation of instrumented real runs (counting model through the public API)",
          "5/C17"),
  "C01": ("Encoding.tla transcribes both id encoders over tokens (column stacking, sort, control detection, cumulative "
@@ -193,7 +193,7 @@ BUILT = {
          "subnormal, -0.0 ...) and pushed through the real Screen/ExperimentSpace; larger random real screens are "
          "projected to tokens and validated by TraceEncoding.",
          "token projection (rank of names in code-point order, order/sign-preserving dose tokens) is trusted glue; "
-         "NaN doses and duplicate-key mappings are outside the quantifier.",
+         "NaN doses and duplicate-key mappings are outside the quantifier. The verdict is taken from the clauses of the statement evaluated on what the code actually returned (Strict=FALSE); equality with the transcribed algorithm is a second pass reported as NOTE model-drift, never as a violation.",
          "TLA+ transcription + TLC exhaustive small scope; spec->code replay of exported cases; code->spec trace validation",
          "5/C01"),
  "C07": ("DistChunks.tla: chunk arithmetic checked by TLC for every n<=10/14 and n_chunks<=50/100 (disjoint, cover, "
@@ -202,7 +202,7 @@ BUILT = {
          "(n,k) and every explored load history is replayed into the real functions/classes (compute with a recording "
          "metric, save, load, concat, to_dense); random larger real histories incl. zero distances and more chunks than "
          "pairs are validated step by step by TraceDistChunks, which reuses the Load/Densify actions.",
-         "values compared by IEEE bit pattern; the metric's arithmetic is trusted beyond symmetry/sign/zero-on-identical.",
+         "values compared by IEEE bit pattern; the metric's arithmetic is trusted beyond symmetry/sign/zero-on-identical. The verdict is taken from the clauses of the statement evaluated on what the code actually returned (Strict=FALSE); equality with the transcribed algorithm is a second pass reported as NOTE model-drift, never as a violation.",
          "TLA+ state machine + TLC exhaustive; spec->code replay of all explored histories; code->spec trace validation",
          "5/C07"),
  "C15": ("TLC explores the register-level transcription of the unranking generator exhaustively for every "
